@@ -22,11 +22,26 @@ def demo_install(sd):
     """returns (test target args, cleanup list)"""
     created = []
     args = []
+    if os.path.basename(sd).startswith("C20"):
+        # the bindings crate only builds a cdylib/staticlib: the demo is an in-crate test module
+        name = "demo_" + re.sub(r"\W", "_", os.path.basename(sd).lower())
+        dst = os.path.join(WT, "bindings", "C", "src", name + ".rs")
+        open(dst, "w").write(open(os.path.join(sd, "demo.rs")).read())
+        lib = os.path.join(WT, "bindings", "C", "src", "lib.rs")
+        open(lib, "a").write(f"\n#[cfg(test)]\nmod {name};\n")
+        created.append(dst)
+        args.append(f"-p mla-bindings-c {name}")
+        return args, created, []
     for f in sorted(glob.glob(os.path.join(sd, "demo*.rs"))):
         crate = "mla"
         txt = open(f).read()
         if "mlar" in os.path.basename(f) or "assert_cmd" in txt:
             crate = "mlar"
+        elif "curve25519_parser" in txt and "mla::" not in txt:
+            crate = "curve25519-parser"
+        m = re.search(r"^// crate: *([\w-]+)", txt, re.M)
+        if m:
+            crate = m.group(1)
         name = "seeddemo_" + re.sub(r"\W", "_", os.path.basename(sd) + "_" + os.path.basename(f)[:-3])
         dst = os.path.join(WT, crate, "tests", name + ".rs")
         os.makedirs(os.path.dirname(dst), exist_ok=True)
@@ -60,6 +75,12 @@ def run_demo(sd):
             ok = False
     for c in created:
         os.remove(c)
+    if os.path.basename(sd).startswith("C20"):
+        # drop the `mod demo_...;` line appended to lib.rs, keep an applied patch
+        lib = os.path.join(WT, "bindings", "C", "src", "lib.rs")
+        txt = open(lib).read()
+        txt = re.sub(r"\n#\[cfg\(test\)\]\nmod demo_\w+;\n", "", txt)
+        open(lib, "w").write(txt)
     for d in diffs:
         sh(f"git apply -R {d}", cwd=WT)
     return ok, outs
